@@ -84,6 +84,17 @@ def modelStep (st : St) : List String → St × String
       ({ st with b := r.1, t := t }, boolStr r.2)
     | none => (st, "bad-op")
   | ["seq", _] => (newSeq st, "seq")
+  -- `catt <user> <gap_s> <counter> <n>`: n simultaneous calls with the right code; the gate is taken
+  -- under the mutex, so this is one call followed by n-1 calls that are turned away as too soon
+  | ["catt", u, g, c, n] =>
+    match g.toInt?, c.toInt?, n.toNat? with
+    | some g, some ctr, some _ =>
+      if g < 0 then (st, "bad-op") else
+      let now := st.now + g * sec
+      let r := step (st.users u) ⟨now, ctr, true⟩
+      let r2 := step r.1 ⟨now, ctr, true⟩
+      ({ st with now := now, users := upd st.users u r2.1 }, totpLine r2.1 now r.2 ++ " " ++ outcomeStr r.2)
+    | _, _, _ => (st, "bad-op")
   | [kind, u, g, c, code] =>
     if kind != "att" && kind != "hatt" then (st, "bad-op") else
     let ctr : Option Int := if kind == "hatt" then
@@ -121,6 +132,21 @@ def planStep (st : St) : List String → St × String
       ({ st with b := r.1, t := t }, s!"at {t - st.t}")
     | none => (st, "bad-op")
   | ["seq", k] => (newSeq st, s!"seq {k}")
+  | ["catt", u, g, c, n] =>
+    match g.toInt? with
+    | some g =>
+      if g < 0 then (st, "bad-op") else
+      let s := st.users u
+      let now := bumpTotp s (st.now + g * sec) 8
+      let ctr : Option Int :=
+        if c == "auto" then some (now / sec / (KM.Gen.C14.totpPeriod : Int)) else c.toInt?
+      match ctr with
+      | some ctr =>
+        let r := step s ⟨now, ctr, true⟩
+        let r2 := step r.1 ⟨now, ctr, true⟩
+        ({ st with now := now, users := upd st.users u r2.1 }, s!"catt {u} {(now - st.now) / sec} {ctr} {n}")
+      | none => (st, "bad-op")
+    | none => (st, "bad-op")
   | [kind, u, g, c, code] =>
     if kind != "att" && kind != "hatt" then (st, "bad-op") else
     match g.toInt?, parseCode code with
